@@ -265,3 +265,7 @@ def run(ctx):
     from .. import intwidth
 
     intwidth.int_narrowing(ctx)  # index / offset arrays must not wrap
+    from .. import gridfun as _gf
+
+    _gf.evaluate_rules(ctx)  # 'observe at GridFunction.evaluate': the function of a coefficient vector is read through the space's own dof map
+    _gf.representations(ctx)
